@@ -9,6 +9,8 @@ ROOT = os.path.dirname(os.path.dirname(os.path.abspath(__file__)))
 sys.path.insert(0, ROOT)
 
 NOT_APPLICABLE = {}   # property -> reason, for properties this family genuinely cannot decide (none so far)
+# checks validated on the unchanged tree (quick + thorough, seeds 0..4 silent apart from listed known findings)
+READY = set(open(os.path.join(ROOT, "tools", "ready.txt")).read().split())
 
 props = [json.loads(l)["id"] for l in open(os.path.join(ROOT, "properties.jsonl"))]
 checks, na = [], []
@@ -20,7 +22,7 @@ for pid in props:
         continue
     mod = importlib.import_module("checks." + pid.lower())
     e = getattr(mod, "MANIFEST_ENTRY", None)
-    if e is None or e.get("disabled"):
+    if e is None or e.get("disabled") or pid not in READY:
         na.append({"property_id": pid, "reason": (e or {}).get(
             "disabled", "check module present but not yet validated on the unchanged tree; nothing is claimed")})
         continue
